@@ -116,7 +116,7 @@ def frame_program(draw):
     b = B(draw)
     T = b.target_ty()
     g0t, g1t = b.pick(GUARD_TYS), b.pick(GUARD_TYS)
-    kind = b.pick(["struct", "struct", "array", "locals"])
+    kind = b.pick(["struct", "struct", "array", "locals", "pair", "pair"])
     body = []
     env_prints = []   # functions producing print statements for everything live
 
@@ -129,6 +129,13 @@ def frame_program(draw):
         body.append(Let("f", F, True, StructLit(F, [("g0", guard_lit(g0t)), ("t", b.value(T)), ("g1", guard_lit(g1t)), ("g2", guard_lit(U64))])))
         target = Field(Var("f", F), "t", T)
         live = [(Field(Var("f", F), "g0", g0t), g0t), (target, T), (Field(Var("f", F), "g1", g1t), g1t), (Field(Var("f", F), "g2", U64), U64)]
+    elif kind == "pair":
+        # a small frame (often <= 16 bytes, so passed and returned in registers): one guard, then the target
+        F = Struct(b.fresh("P"), [("g0", g0t), ("t", T)])
+        b.p.types.append(F)
+        body.append(Let("f", F, True, StructLit(F, [("g0", guard_lit(g0t)), ("t", b.value(T))])))
+        target = Field(Var("f", F), "t", T)
+        live = [(Field(Var("f", F), "g0", g0t), g0t), (target, T)]
     elif kind == "array":
         A = Array(3, T)
         body.append(Let("arr", A, True, ArrLit(A, [b.value(T), b.value(T), b.value(T)])))
@@ -151,7 +158,9 @@ def frame_program(draw):
     ops = []
     t0 = strip_distinct(T)
     for _ in range(b.int(1, 4)):
-        op = b.pick(["store", "store", "copy-mutate", "default", "via-fn", "nil-or-variant"])
+        op = b.pick(["store", "store", "copy-mutate", "default", "via-fn", "nil-or-variant", "snapshot", "whole-via-fn"])
+        if op == "whole-via-fn" and kind not in ("struct", "pair"):
+            op = "via-fn"
         ops.append(op)
         if op == "store":
             body.append(Assign(target, None, b.value(T)))
@@ -172,6 +181,22 @@ def frame_program(draw):
             body.append(Assign(Var(c, T), None, b.value(T)))
             body += dump()
             body.append(Assign(target, None, b.value(T)))
+        elif op == "snapshot":
+            # an immutable binding is a copy as well: later writes to the source must not show through it
+            c = b.fresh("snap")
+            body.append(Let(c, T, False, target))
+            extra_live.append((Var(c, T), T))
+            body.append(Assign(target, None, b.value(T)))
+        elif op == "whole-via-fn":
+            # the whole frame by value: callee mutates its copy of the target and returns the frame
+            fn = b.fresh("wfn")
+            fbody = [Let("loc", F, True, Var("a", F)), Assign(Field(Var("loc", F), "t", T), None, b.value(T))]
+            b.p.fns.append(FnDecl(fn, [("a", F)], F, fbody, Var("loc", F)))
+            keep = b.fresh("keep")
+            body.append(Let(keep, F, True, Var("f", F)))
+            for fname, fty in F.fields:
+                extra_live.append((Field(Var(keep, F), fname, fty), fty))
+            body.append(Assign(Var("f", F), None, Call(fn, [Var(keep, F)], F)))
         elif op == "default":
             if b.util.defaultable(T):
                 d = b.fresh("d")
@@ -251,6 +276,57 @@ def sweep_program(sizes, shape):
     return p
 
 
+def abi_sweep_programs():
+    """small structs (<= 24 bytes) with one sum-typed field next to a guard, passed and returned by value:
+    every (guard type, sum type, field order) combination, some/nil and every variant"""
+    E = Enum("AE", [("A", U32, None), ("B", None, None), ("C", U8, None)])
+    Er = Enum("AErr", [("Bad", None, None), ("Worse", U16, None)])
+    sums = [Opt(U8), Opt(U16), Opt(U32), Opt(I32), Opt(U64), Opt(BOOL), Opt(Array(3, U8)), E, ErrU(Er, U32), ErrU(Er, U8)]
+    progs = []
+    for gi, gt in enumerate(GUARD_TYS):
+        p = Program()
+        p.types += [E, Er]
+        util = G(None, {"avoid": {"switch-array-arm"}})
+        body = []
+        k = 0
+        for X in sums:
+            x0 = strip_distinct(X)
+            if isinstance(x0, Opt):
+                inner = x0.inner
+                iv = (lambda n: ArrLit(inner, [Lit(U8, n + j) for j in range(inner.n)])) if isinstance(inner, Array) else (lambda n: Lit(inner, bool(n & 1) if isinstance(inner, Bool) else n))
+                vals = [Coerce(iv(41), X), Nil(x0), Coerce(iv(7), X)]
+            elif isinstance(x0, Enum):
+                vals = [Coerce(VariantLit(VariantTy(x0, 0), Lit(U32, 123456)), X), Coerce(VariantLit(VariantTy(x0, 1), None), X), Coerce(VariantLit(VariantTy(x0, 2), Lit(U8, 9)), X)]
+            else:
+                en = x0.err
+                vals = [Coerce(Lit(x0.ok, 77), X), Coerce(Coerce(VariantLit(VariantTy(en, 0), None), en), X), Coerce(Coerce(VariantLit(VariantTy(en, 1), Lit(U16, 513)), en), X)]
+            for order in (0, 1, 2):
+                k += 1
+                fields = [("g0", gt), ("t", X)] if order == 0 else [("t", X), ("g0", gt)] if order == 1 else [("g0", gt), ("t", X), ("g1", U8)]
+                S = Struct(f"A{gi}_{k}", fields)
+                p.types.append(S)
+
+                def lit(v):
+                    return StructLit(S, [(n, v if n == "t" else Lit(ft, SENT[ft.bits])) for n, ft in S.fields])
+                p.fns.append(FnDecl(f"pass{k}", [("s", S)], S, [], Var("s", S)))
+                p.fns.append(FnDecl(f"set{k}", [("s", S), ("v", X)], S, [Let("l", S, True, Var("s", S)), Assign(Field(Var("l", S), "t", X), None, Var("v", X))], Var("l", S)))
+                v, r = f"v{k}", f"r{k}"
+                body.append(Let(v, S, True, lit(vals[0])))
+                body.append(Let(r, S, True, lit(vals[1])))
+                live = [(Field(Var(x, S), n, ft), ft) for x in (v, r) for n, ft in S.fields]
+                for val in vals:
+                    body.append(Assign(Var(r, S), None, Call(f"set{k}", [Var(v, S), val], S)))
+                    for e, t in live:
+                        body += util.print_value(e, t)
+                    body.append(Assign(Var(v, S), None, Call(f"pass{k}", [Var(r, S)], S)))
+                    for e, t in live:
+                        body += util.print_value(e, t)
+        p.fns.append(FnDecl("main", [], VOID, body, None))
+        p.meta = {"frame": "abi-sweep", "guard": gt.src()}
+        progs.append(p)
+    return progs
+
+
 @st.composite
 def frames(draw):
     return frame_program(draw)
@@ -306,7 +382,7 @@ def replay_payload(payload, scratch):
 RULE = ("frames = target slot of an aggregate/sum type (enum with payloads and custom discriminants, optional, error union, struct, array) between guards holding "
         "sentinel bytes (struct fields, array neighbours, adjacent locals) + 1-4 write operations (store of a literal, variant/nil/error store, copy-then-mutate, "
         "default-initialised value, by-value pass + callee mutation + return); plus a systematic sweep passing and returning structs of every size 1..64 bytes "
-        "(5 field shapes) by value. Every case writes an aggregate/sum target with a guard adjacent after it, so every case is non-trivial; distinct by program text.")
+        "(5 field shapes) by value, and every (guard type x sum-typed field x field order) small struct passed / returned in registers. Every case writes an aggregate/sum target with a guard adjacent after it, so every case is non-trivial; distinct by program text.")
 
 
 def run(ctx):
@@ -333,6 +409,14 @@ def run(ctx):
                     st_.known_hits[f.key] = st_.known_hits.get(f.key, 0) + 1
                 else:
                     st_.violations[f.key] = (f.desc, f.replay)
+    for p in abi_sweep_programs():
+        try:
+            check(p, st_, scratch, "sweep")
+        except Fail as f:
+            if ctx.is_known(f.key):
+                st_.known_hits[f.key] = st_.known_hits.get(f.key, 0) + 1
+            else:
+                st_.violations[f.key] = (f.desc, f.replay)
     ctx.merge(st_)
     total = 24000 if ctx.thorough else 640
     infra = core.hypothesis_search(ctx, "pyv.c02", total)
